@@ -200,6 +200,27 @@ def run(ctx):
                 else:
                     ctx.fail("C09-R2", b.path, "store const", "an element of times is set to %s outside the `< 0 => -1` normalisation" % show(val)[:40], cm.loc_of(st["span"]))
                 continue
+            # the whole pair rewritten at once: times[X] = (n(start), n(end)) with n(t) = -1 for t < 0, t otherwise
+            if tgt[0] == "idx" and "times" in show(tgt[1]) and val[0] == "agg" and val[1] == "tuple" and len(val[2]) == 2 and tgt[2][0] != "agg":
+                okw = True
+                for k_, comp in enumerate(val[2]):
+                    old_k = ("field", tgt, str(k_))
+                    alts_ = []
+                    if comp[0] == "var" and isinstance(comp[1], int):
+                        for d_ in [d for d in b.defs().get(comp[1], []) if not b.is_cleanup(d[0])]:
+                            ex_ = eb.at(d_[0], d_[1]).call(d_[2]) if d_[1] == "term" else eb.at(d_[0], d_[1]).rvalue(d_[2]["rv"])
+                            alts_.append((resolve_splits(ex_), [sign_atom(g) for g in paths.guards(b, d_[0], eb)]))
+                    else:
+                        alts_.append((comp, []))
+                    ident = [a for a in alts_ if canon(a[0]) == canon(old_k)]
+                    minus = [a for a in alts_ if a[0][0] == "c" and float(a[0][1]) == -1.0 and (canon(old_k), "neg") in a[1]]
+                    if not (ident and len(ident) + len(minus) == len(alts_)):
+                        okw = False
+                if okw:
+                    ctx.ok("C09-R2", "times[i] rewritten as (n(start), n(end)), n(t) = -1 for t < 0 and t otherwise", cm.loc_of(st["span"]))
+                else:
+                    ctx.fail("C09-R2", b.path, "store " + show(tgt)[:60], "a whole time pair is overwritten with %s, which is not the `< 0 => -1` normalisation of its own components" % show(val)[:100], cm.loc_of(st["span"]))
+                continue
             if not (tgt[0] == "field" and tgt[2] in ("0", "1") and tgt[1][0] == "idx") or "times" not in show(root) and "times" not in show(tgt):
                 if "times" in show(tgt):
                     ctx.fail("C09-R2", b.path, "store " + show(tgt)[:60], "unexpected store into times", cm.loc_of(st["span"]))
@@ -309,6 +330,16 @@ def run(ctx):
                 ctx.ok("C09-R5", "create_with_alignment is called on the alignment-flag-true edge", cm.loc_of(t["span"]))
             else:
                 ctx.fail("C09-R5", g.path, "dispatch", "create_with_alignment is not on the phoneme_alignment_flag == true edge", cm.loc_of(t["span"]))
+            # ... and the flag alone decides: no further test in front of the aligned path, and the
+            # speed-scaled path is taken only with the flag off
+            is_flag = lambda pos, c: show(c) == "self.condition.phoneme_alignment_flag"
+            extra = cm.value_guards(g, eb, bb, is_flag)
+            cr = cm.local_calls(g, p, exact=DE + "create")
+            cr_ok = len(cr) == 1 and any(gd[0] == "false" and show(gd[1]) == "self.condition.phoneme_alignment_flag" for gd in paths.guards(g, cr[0][0], eb)) and not cm.value_guards(g, eb, cr[0][0], is_flag)
+            if extra or not cr_ok:
+                ctx.fail("C09-R5", g.path, "dispatch", "the alignment flag alone does not decide between create_with_alignment and create(speed)%s: with the flag on, some annotations would be ignored altogether" % ((" (also needed: %s)" % " and ".join(extra)) if extra else ""), cm.loc_of(t["span"]))
+            else:
+                ctx.ok("C09-R5", "the flag alone decides: create(speed) only on its false edge, nothing else in front of either call", cm.loc_of(t["span"]))
             if "label::Labels::times(" in a and "to_labels" in a:
                 ctx.ok("C09-R5", "it receives labels.times() of the parsed labels", cm.loc_of(t["span"]))
             else:
